@@ -1281,6 +1281,155 @@ pub fn build_cvar(axes: usize, num_cvts: usize, variant: u64) -> Vec<u8> {
     t
 }
 
+/// See [`Surgery::InstallVarComposite`]. Returns the new (glyf, gvar).
+pub fn var_composite(
+    head: &[u8],
+    loca: &[u8],
+    glyf: &[u8],
+    gvar: &[u8],
+    g: u16,
+    a: u16,
+    b: u16,
+    dx: i16,
+    dy: i16,
+    variant: u64,
+) -> Result<(Vec<u8>, Vec<u8>), String> {
+    let bail = |m: &str| -> String { format!("surgery: var composite: {}", m) };
+    let long = be16(head, 50).ok_or_else(|| bail("head"))? == 1;
+    let off = |i: usize| -> Option<usize> {
+        if long {
+            be32(loca, 4 * i).map(|v| v as usize)
+        } else {
+            be16(loca, 2 * i).map(|v| usize::from(v) * 2)
+        }
+    };
+    let slot = |i: u16| -> Option<(usize, usize)> {
+        let (s, e) = (off(usize::from(i))?, off(usize::from(i) + 1)?);
+        (e >= s && e <= glyf.len()).then_some((s, e))
+    };
+    let (s, e) = slot(g).ok_or_else(|| bail("glyph slot"))?;
+    for c in [a, b] {
+        let (cs, ce) = slot(c).ok_or_else(|| bail("component slot"))?;
+        if c == g || ce - cs < 12 || glyf[cs] & 0x80 != 0 {
+            return Err(bail("component is not a simple glyph"));
+        }
+    }
+    let words = variant % 2 == 1;
+    let scale = variant / 2 % 4 == 3;
+    let (x0, y0): (i16, i16) = (100, 20);
+    let mut comp = Vec::new();
+    comp.extend_from_slice(&(-1i16).to_be_bytes());
+    comp.extend_from_slice(glyf.get(s + 2..s + 10).ok_or_else(|| bail("short glyph"))?);
+    // 2-7 components (a, b, a, b, ...); optionally positioned by point matching
+    let nc = 2 + (variant / 128 % 6) as usize;
+    let matched = variant / 1024 % 4 == 0;
+    let comps: Vec<u16> = (0..nc).map(|k| if k % 2 == 0 { a } else { b }).collect();
+    for (k, c) in comps.iter().copied().enumerate() {
+        let mut flags: u16 = if matched && k > 0 { 0 } else { 0x0002 };
+        if k + 1 < nc {
+            flags |= 0x0020;
+        }
+        if words {
+            flags |= 0x0001;
+        }
+        if scale && k == 1 && !matched {
+            flags |= 0x0008;
+        }
+        if variant / 8 % 2 == 1 && k == 1 {
+            flags |= 0x0200; // USE_MY_METRICS
+        }
+        comp.extend_from_slice(&flags.to_be_bytes());
+        comp.extend_from_slice(&c.to_be_bytes());
+        let (x, y) = if k == 0 { (x0, y0) } else if matched { (0, 0) } else { (-30, 5) };
+        if words {
+            comp.extend_from_slice(&x.to_be_bytes());
+            comp.extend_from_slice(&y.to_be_bytes());
+        } else {
+            comp.push(x as i8 as u8);
+            comp.push(y as i8 as u8);
+        }
+        if scale && k == 1 && !matched {
+            comp.extend_from_slice(&0x2000u16.to_be_bytes()); // 0.5
+        }
+    }
+    if comp.len() > e - s {
+        return Err(bail("glyph slot too small"));
+    }
+    let mut new_glyf = glyf.to_vec();
+    new_glyf[s..s + comp.len()].copy_from_slice(&comp);
+    for x in &mut new_glyf[s + comp.len()..e] {
+        *x = 0;
+    }
+    // gvar
+    let axes = usize::from(be16(gvar, 4).ok_or_else(|| bail("gvar"))?);
+    let gcount = usize::from(be16(gvar, 12).ok_or_else(|| bail("gvar"))?);
+    let gflags = be16(gvar, 14).ok_or_else(|| bail("gvar"))?;
+    let array = be32(gvar, 16).ok_or_else(|| bail("gvar"))? as usize;
+    if usize::from(g) >= gcount || axes == 0 {
+        return Err(bail("glyph not in gvar"));
+    }
+    let goff = |i: usize| -> Option<usize> {
+        if gflags & 1 == 1 {
+            be32(gvar, 20 + 4 * i).map(|v| v as usize)
+        } else {
+            be16(gvar, 20 + 2 * i).map(|v| usize::from(v) * 2)
+        }
+    };
+    let (vs, ve) = (
+        array + goff(usize::from(g)).ok_or_else(|| bail("gvar offsets"))?,
+        array + goff(usize::from(g) + 1).ok_or_else(|| bail("gvar offsets"))?,
+    );
+    if ve < vs || ve > gvar.len() {
+        return Err(bail("gvar data range"));
+    }
+    let axis = (variant / 16) as usize % axes;
+    let neg = variant / 64 % 2 == 1;
+    // deltas for the components + 4 phantom points
+    let mut xs: Vec<i16> = vec![dx];
+    let mut ys: Vec<i16> = vec![dy];
+    for k in 1..nc {
+        xs.push(if k % 2 == 1 { -7 } else { 9 });
+        ys.push(if k % 3 == 1 { 3 } else { 0 });
+    }
+    xs.extend_from_slice(&[0, 11, 0, 0]);
+    ys.extend_from_slice(&[0, 0, 0, 0]);
+    let pack = |v: &[i16]| -> Vec<u8> {
+        if v.iter().all(|d| (-128..=127).contains(d)) {
+            let mut o = vec![(v.len() - 1) as u8];
+            o.extend(v.iter().map(|d| *d as i8 as u8));
+            o
+        } else {
+            let mut o = vec![0x40 | (v.len() - 1) as u8];
+            for d in v {
+                o.extend_from_slice(&d.to_be_bytes());
+            }
+            o
+        }
+    };
+    let mut ser = vec![0u8]; // all points
+    ser.extend(pack(&xs));
+    ser.extend(pack(&ys));
+    let mut data = Vec::new();
+    data.extend_from_slice(&1u16.to_be_bytes());
+    data.extend_from_slice(&((4 + 4 + 2 * axes) as u16).to_be_bytes());
+    data.extend_from_slice(&(ser.len() as u16).to_be_bytes());
+    data.extend_from_slice(&0xA000u16.to_be_bytes()); // embedded peak, private point numbers
+    for k in 0..axes {
+        let v: i16 = if k == axis { if neg { -0x4000 } else { 0x4000 } } else { 0 };
+        data.extend_from_slice(&v.to_be_bytes());
+    }
+    data.extend(ser);
+    if data.len() > ve - vs {
+        return Err(bail("gvar slot too small"));
+    }
+    let mut new_gvar = gvar.to_vec();
+    new_gvar[vs..vs + data.len()].copy_from_slice(&data);
+    for x in &mut new_gvar[vs + data.len()..ve] {
+        *x = 0;
+    }
+    Ok((new_glyf, new_gvar))
+}
+
 fn num_glyphs(disk: &Disk) -> Result<u16, String> {
     disk.tables
         .get(&tag_from_str("maxp"))
@@ -1476,6 +1625,14 @@ pub fn apply(disk: &mut Disk, s: &Surgery) -> Result<(), String> {
             let t = disk.tables.get(&tag_from_str("CFF2")).ok_or("surgery: no CFF2")?.clone();
             let new = cff2_with_subrs(&t, glyphs, *nest)?;
             disk.tables.insert(tag_from_str("CFF2"), Rc::new(new));
+            Ok(())
+        }
+        Surgery::InstallVarComposite { glyph, a, b, dx, dy, variant } => {
+            let get = |t: &str| disk.tables.get(&tag_from_str(t)).cloned().ok_or(format!("surgery: no {}", t));
+            let (head, loca, glyf, gvar) = (get("head")?, get("loca")?, get("glyf")?, get("gvar")?);
+            let (ng, nv) = var_composite(&head, &loca, &glyf, &gvar, *glyph, *a, *b, *dx, *dy, *variant)?;
+            disk.tables.insert(tag_from_str("glyf"), Rc::new(ng));
+            disk.tables.insert(tag_from_str("gvar"), Rc::new(nv));
             Ok(())
         }
         Surgery::InstallCvar { num_cvts, variant } => {
